@@ -33,8 +33,7 @@ theorem patchVal_unlisted (isZero : V → Bool) (items : List (String × Leaf V)
   · simp [h]
 
 theorem asLeaf_shape (isZero : V → Bool) (l : Leaf V) (sm : Mesh) (nv : Nat) (sub : NDA V)
-    (h : asLeaf isZero l sm nv = .ok sub) (hf : ∀ src, l = .field src → src.nvdim = nv) :
-    sub.shape = sm.n ++ [nv] := by
+    (h : asLeaf isZero l sm nv = .ok sub) : sub.shape = sm.n ++ [nv] := by
   cases l with
   | bad => cases h
   | scalar v =>
@@ -54,15 +53,17 @@ theorem asLeaf_shape (isZero : V → Bool) (l : Leaf V) (sm : Mesh) (nv : Nat) (
     simp only [asLeaf] at h
     exact funcLoop_shape _ _ _ _ _ h
   | field src =>
-    have hn := hf src rfl
     simp only [asLeaf] at h
     split at h
     · cases h
     · split at h
       · cases h
-      · have : ¬ (src.nvdim = 1 ∧ nv ≠ 1) := by rw [hn]; tauto
-        simp only [this, if_false] at h
-        injection h with h; subst h; simp [hn]
+      · rename_i hn
+        split at h
+        · cases h
+        · injection h with h; subst h
+          have : src.nvdim = nv := by simpa using hn
+          simp [this]
 
 omit [Inhabited V] in
 theorem lookupLeaf_mem (items : List (String × Leaf V)) (name : String) (lf : Leaf V)
@@ -111,7 +112,7 @@ theorem findSome_patch (isZero : V → Bool) (items : List (String × Leaf V)) (
         exact ih'
 
 theorem asArray_dict_loop_ok (isZero : V → Bool) (items : List (String × Leaf V)) (dflt : Option (Dflt V))
-    (m : Mesh) (nv : Nat) (a : NDA V) (h : asArray isZero none (.dict items dflt) m nv = .ok a) :
+    (m : Mesh) (nv : Nat) (a : NDA V) (h : asArray isZero (.dict items dflt) m nv = .ok a) :
     ∃ a0 a1, dictLoop isZero items m nv m.subs.reverse a0 = .ok a1 := by
   simp only [asArray] at h
   split at h
@@ -124,7 +125,7 @@ theorem asArray_dict_loop_ok (isZero : V → Bool) (items : List (String × Leaf
 
 /-- if the whole conversion succeeded, every listed leaf converted on its submesh -/
 theorem listed_leaf_ok (isZero : V → Bool) (items : List (String × Leaf V)) (dflt : Option (Dflt V))
-    (m : Mesh) (hm : m.Inv) (nv : Nat) (a : NDA V) (h : asArray isZero none (.dict items dflt) m nv = .ok a)
+    (m : Mesh) (hm : m.Inv) (nv : Nat) (a : NDA V) (h : asArray isZero (.dict items dflt) m nv = .ok a)
     (k1 k2 : String × Region → Nat → Nat) (p : String × Region) (hp : p ∈ m.subs)
     (hal : AlignedSub m p.2 (k1 p) (k2 p)) (lf : Leaf V) (hl : lookupLeaf items p.1 = some lf) :
     ∃ sub, asLeaf isZero lf (subMeshOf m p.2 (k1 p) (k2 p)) nv = .ok sub := by
